@@ -1317,14 +1317,30 @@ impl SparqlDatabase {
             .collect();
 
         for (triples, dict_arc, pref) in partial_results {
-            for t in triples {
+            // Every chunk was parsed into a private database whose dictionary numbers its
+            // terms from 0, so the chunk's triples carry chunk-local IDs: translate them
+            // through their lexical form into the shared dictionary before inserting.
+            let reencoded: Vec<Triple> = {
+                let other_dict = dict_arc.read().unwrap();
+                let mut self_dict = self.dictionary.write().unwrap();
+                let mut reencode = |id: u32| -> u32 {
+                    let lexical = other_dict
+                        .decode(id)
+                        .unwrap_or_else(|| panic!("term ID {id} is missing from its chunk dictionary"));
+                    self_dict.encode(lexical)
+                };
+                triples
+                    .iter()
+                    .map(|t| Triple {
+                        subject: reencode(t.subject),
+                        predicate: reencode(t.predicate),
+                        object: reencode(t.object),
+                    })
+                    .collect()
+            };
+            for t in reencoded {
                 self.add_triple(t);
             }
-            let mut self_dict = self.dictionary.write().unwrap();
-            let other_dict = dict_arc.read().unwrap();
-            self_dict.merge(&other_dict);
-            drop(other_dict);
-            drop(self_dict);
             for (k, v) in pref {
                 self.prefixes.insert(k, v);
             }
